@@ -42,6 +42,10 @@ End(s, a) ==
          THEN R([s EXCEPT !.calls = rest, !.tbl = [@ EXCEPT ![c.idx] = c.g],
                           !.sub = [x \in DOMAIN s.sub \cup {c.g} |-> IF x = c.g THEN c.idx ELSE s.sub[x]]], "ok", NoWrite)
          ELSE R([s EXCEPT !.calls = rest, !.avail = @ \cup {c.idx}], IF a = "reject" THEN "rejected" ELSE "exception", NoWrite)
+    ELSE IF a = "ok" /\ c.g \notin DOMAIN s.sub
+         \* an overlapping unsubscribe of the same group completed first: the entry is cleared once more on the NCP (the write was issued
+         \* before anyone could claim the index again), the host's bookkeeping is NOT touched a second time - the call ends with an error
+         THEN R([s EXCEPT !.calls = rest, !.tbl = [@ EXCEPT ![c.idx] = Free]], "error", NoWrite)
     ELSE IF a = "ok"
          THEN R([s EXCEPT !.calls = rest, !.tbl = [@ EXCEPT ![c.idx] = Free],
                           !.sub = [x \in DOMAIN s.sub \ {c.g} |-> s.sub[x]], !.avail = @ \cup {c.idx}], "ok", NoWrite)
